@@ -290,15 +290,9 @@ func (spec *Spec) Compile(ctx context.Context, interpreters Interpreters, force 
 			if b == nil {
 				continue
 			}
-			x, err := spec.PatternParser(spec.PatternSyntax, b.Pattern)
-			if err != nil {
-				return err
-			}
-			// ToDo: Remove
-			if x, err = Canonicalize(x); err != nil {
-				return err
-			}
-			b.Pattern = x
+			// (The pattern has been parsed and canonicalized
+			// by ParsePatterns above; parsing it again would
+			// treat a string pattern as pattern text.)
 			if b.GuardSource != nil && (force || b.Guard == nil) {
 				guard, err := b.GuardSource.Compile(ctx, interpreters)
 				if err != nil {
